@@ -158,6 +158,15 @@ PROPS = {
         assumptions=COMMON_ASSUME + ["areas always have a read callback; the unchecked variant only receives correctly typed values (the property's domain)"],
         targets=[enum("enum", ["props/C01_enum.cpp"], qs=12, ts=16)],
     ),
+    "C02": dict(
+        level="exploration",
+        exhaustive_possible=False,
+        rule="cases are (table, storage content, touched marks, block write) tuples; for each generated table every (address, length) of a window covering all areas, holes and edges x 6 "
+             "word patterns, applied as an evolving history; non-trivial = a window that partially overlaps a register while carrying a bound+-1 / non-finite pattern, or that spans "
+             "two areas or a hole with a non-identity pattern; distinct by the serialised case",
+        assumptions=COMMON_ASSUME + ["when several failure classes are present any of them may be reported, but with that class' first address inside the request"],
+        targets=[enum("enum", ["props/C02_enum.cpp"], qs=12, ts=16)],
+    ),
 }
 
 NOTE_COMMON = ("trusted: clang/ASan/UBSan, the harness and its reference model; the search is bounded (see evidence: tier bounds and counts); "
@@ -257,6 +266,14 @@ MANIFEST_TEXT = {
         level_text="Thousands of valid tables of a small-scope family are generated (both byte orders, memory- and callback-backed areas, every constraint kind); each register is driven with "
                    "values at type and constraint boundaries, all float classes and mistyped values through the checked and unchecked setter, and the storage is compared word for word with "
                    "a reference serialisation. 16-bit registers are swept over all values on a subset of tables; wider types are sampled.",
+        level_note=NOTE_COMMON,
+    ),
+    "C02": dict(
+        engine="enum (generated tables x exhaustive windows)",
+        technique="model-based testing: exhaustive (address, length) windows x adversarial word patterns per generated table, against an overlay model; ASan on exact-size caller buffers",
+        level_text="For every generated table all windows of the flat address space (including starts in holes, partial overlaps of 32/64-bit registers at either end, spans over adjacent "
+                   "areas) are written with patterns built to cross constraint bounds through only the words inside the window; the model overlays the words, re-decodes every overlapped "
+                   "register and predicts acceptance or the set of failure classes with their first addresses; all storage, touched marks and the caller's exact-size buffer are checked.",
         level_note=NOTE_COMMON,
     ),
 }
